@@ -75,8 +75,8 @@ fn program_family(rep: &mut Report, viols: &Viols, machinery: &Mutex<Vec<String>
                 for (oi, &ord) in orders.iter().enumerate() {
                     let Some(text) = p.text(ord) else { continue };
                     // merge_modules variants are independent of the declaration order (first order only)
-                    // and of loop contexts (quick tier: not repeated for the loop families)
-                    let do_modules = oi == 0 && (thorough || !fam.name.contains("loop"));
+                    // and of loop contexts (not repeated for the loop families)
+                    let do_modules = oi == 0 && !fam.name.contains("loop");
                     let out = eval_case(&prop, &text, do_modules, thorough);
                     if let Some(m) = &out.machinery {
                         machinery.lock().unwrap().push(m.clone());
